@@ -19,7 +19,18 @@ let kind_of_string = function
   | s -> failwith ("kind " ^ s)
 let string_of_kind = function KObj -> "obj" | KBool -> "bool" | KVecBare -> "vecbare" | KVecObj -> "vecobj"
 
-let zs s = z_of_int (int_of_string s)
+(* salts are arbitrary 64-bit integers (OCaml's int has 63 bits): numbers go through Int64 *)
+let rec pos_of_u64 (m : int64) : positive =
+  if m = 1L then XH
+  else if Int64.logand m 1L = 0L then XO (pos_of_u64 (Int64.shift_right_logical m 1))
+  else XI (pos_of_u64 (Int64.shift_right_logical m 1))
+let z_of_int64 (n : int64) : z =
+  if n = 0L then Z0 else if n > 0L then Zpos (pos_of_u64 n) else Zneg (pos_of_u64 (Int64.neg n))
+let rec u64_of_pos (p : positive) : int64 =
+  match p with XH -> 1L | XO q -> Int64.shift_left (u64_of_pos q) 1 | XI q -> Int64.logor (Int64.shift_left (u64_of_pos q) 1) 1L
+let int64_of_z (x : z) : int64 = match x with Z0 -> 0L | Zpos p -> u64_of_pos p | Zneg p -> Int64.neg (u64_of_pos p)
+let zs s = z_of_int64 (Int64.of_string s)
+let sz (x : z) : string = Int64.to_string (int64_of_z x)
 
 let rec parse_body (tok : string list) : body * string list =
   match tok with
@@ -69,21 +80,21 @@ let show_written (pre : state) (post : state) : string list =
     let inc = match prev with [] -> "1" | p :: _ -> if int_of_z w.w_id > int_of_z p.w_id then "1" else "0" in
     let m4 = ((int_of_z w.w_id) mod 4 + 4) mod 4 in
     (match w.w_kind with
-     | WReq _ -> [Printf.sprintf "W:req:%d:%d:%s:s=%d" (int_of_z w.w_seq) m4 inc (int_of_z w.w_salt)]
-     | WAck sid -> [Printf.sprintf "W:ack:%d:%d:%s:s=%d:ack=%d" (int_of_z w.w_seq) m4 inc (int_of_z w.w_salt) (int_of_z sid)])
+     | WReq _ -> [Printf.sprintf "W:req:%d:%d:%s:s=%s" (int_of_z w.w_seq) m4 inc (sz w.w_salt)]
+     | WAck sid -> [Printf.sprintf "W:ack:%d:%d:%s:s=%s:ack=%d" (int_of_z w.w_seq) m4 inc (sz w.w_salt) (int_of_z sid)])
   | _ -> []
 
 let qlen (s : state2) : int = match s.wch with WNil -> 0 | WBuf (_, n) -> int_of_nat n
-let stored (s : state2) : int = match s.base.store with x :: _ -> int_of_z x | [] -> 0
+let stored (s : state2) : string = match s.base.store with x :: _ -> sz x | [] -> "0"
 
 let rx_state (s : state2) : string =
-  Printf.sprintf "q=%d h=%d st=%d" (qlen s) (int_of_nat s.handled) (stored s)
+  Printf.sprintf "q=%d h=%d st=%s" (qlen s) (int_of_nat s.handled) (stored s)
 
 let project (pre : state2) (l : label2) (post : state2) : string =
   let items =
     match l with
     | LDrain -> [Printf.sprintf "q=%d" (qlen post)]
-    | LKeyEx _ -> [Printf.sprintf "keyed plain=%d st=%d" (int_of_nat post.plain_out) (stored post)]
+    | LKeyEx _ -> [Printf.sprintf "keyed plain=%d st=%s" (int_of_nat post.plain_out) (stored post)]
     | L1 (LCall (t, _)) -> let t = int_of_nat t in [Printf.sprintf "c%d@%s" t (cpoint (getc_i t post.base).c_pc)]
     | L1 (LStep (ACaller t, _)) ->
       let t = int_of_nat t in
@@ -126,7 +137,7 @@ let parse_label (tok : string list) : label2 option =
   | ["keyex"; x] -> Some (LKeyEx (zs x))
   | _ -> None
 
-(* "warn=nil|buf:N handler=0|1 fresh=0|1" *)
+(* "warn=nil|live|buf:N handler=0|1|2|3 fresh=0|1"; an unbuffered channel with a live reader is not projected: nil *)
 let parse_config (s : string) : config =
   let w = ref WNil and h = ref false and k = ref true in
   List.iter (fun kv ->
@@ -134,7 +145,7 @@ let parse_config (s : string) : config =
       | ["warn"; v] ->
         if String.length v > 4 && String.sub v 0 4 = "buf:" then
           w := WBuf (nat_of_int (int_of_string (String.sub v 4 (String.length v - 4))), O)
-      | ["handler"; v] -> h := (v = "1")
+      | ["handler"; v] -> h := (v = "1" || v = "3")   (* 2 = a handler that declines; 3 = one that declines, one that accepts *)
       | ["fresh"; v] -> k := (v <> "1")
       | _ -> ()) (String.split_on_char ' ' s);
   { cf_warn = !w; cf_handler = !h; cf_keyed = !k }
@@ -157,8 +168,8 @@ let replay () =
     | "F" :: idx :: _ ->
       (match !st with
        | Some s ->
-         Printf.printf "MF\t%s\tseq=%d table=%d hints=%d salt=%d gen=%d q=%d\tunacked=%d rx=%s failed=%d retries=%d\n" idx
-           (int_of_z s.base.seqno) (List.length s.base.table) (List.length s.base.hints) (int_of_z s.base.salt)
+         Printf.printf "MF\t%s\tseq=%d table=%d hints=%d salt=%s gen=%d q=%d\tunacked=%d rx=%s failed=%d retries=%d\n" idx
+           (int_of_z s.base.seqno) (List.length s.base.table) (List.length s.base.hints) (sz s.base.salt)
            (int_of_nat s.gen) (qlen s) (List.length (unacked s.base.elog)) (rpoint s.base.rx)
            (int_of_nat s.failed) (List.length (retries s.base.elog))
        | None -> Printf.printf "MF\t%s\tREJECTED\n" idx)
